@@ -21,6 +21,10 @@ CHECKS = {
    technique="deterministic simulation of API-call histories: seeded class models split into 1-4 DEX files, every add order with interleaved queries, create_xref once; name-based summary compared tuple by tuple with the single-DEX reference analysis",
    text="Seeded search over (model, partition, add order, interleaved queries); all permutations for k<=3. Real multi-DEX APKs cover the order half. Sampling, not proof.",
    note="Trusted: gen/dexasm.py (self-checked against the parser; identical code bytes in single and split builds). Reference = single-DEX analysis by the same code."),
+ "C22": dict(engine="ndsim", category="exploration", ref="4.2",
+   technique="deterministic simulation of the ambient nondeterminism: child interpreters with seed-derived PYTHONHASHSEED, seeded identity hash (__hash__ seam) on every androguard object, and seeded decompilation histories; all simulated processes must emit identical text per target",
+   text="Seeded search over (hash seed, identity-hash layout, decompilation history) for corpus and generated DEX files with loops, switches, short-circuit conditions and try/catch. Sampling, not proof.",
+   note="Trusted: CPython orders identity-hashed set/dict members only through __hash__; gen/dexasm.py. Real addresses are never used as a deciding seam (not reproducible here)."),
 }
 
 def build():
@@ -55,6 +59,8 @@ def build():
         "engines": [
             {"name": "procsim", "path": "simkit/procsim.py", "serves_properties": ["C36"],
              "kind_free_text": "deterministic simulation of real OS processes over one SQLite file, seeded scheduler + fault injection"},
+            {"name": "ndsim", "path": "checks/c22.py", "serves_properties": ["C22"],
+             "kind_free_text": "child interpreters whose hash seed, identity-hash layout and decompilation history are seeded simulated variables"},
             {"name": "histsim", "path": "simkit/driver.py", "serves_properties": ["C16", "C17"],
              "kind_free_text": "seeded API-call history search against a reference model, ddmin minimisation, exact replay"},
         ],
